@@ -270,6 +270,13 @@ class VRowText:
         self.sep, self.clause, self.prefix, self.suffix = sep, clause, prefix, suffix
 
 
+class VCombs2:
+    """all pairs (a, b) with lo <= a < b < hi, in itertools.combinations order; iterated as two nested range loops"""
+
+    def __init__(self, lo, hi):
+        self.lo, self.hi = lo, hi
+
+
 class VNested:
     """buffer.getvalue() [+ suffix]: the whole text written to an in-memory buffer"""
 
@@ -1376,10 +1383,31 @@ class Engine:
         integer ranges: the same iterations, in the same order, as the nested loops  for .. in A: for .. in B  resp.
         for a in R: for b in range(a+1, hi).  Returns a synthesized ast.For (its levels carry the specs loops[k]['nest'][level])
         or None when the loop is not of that shape."""
-        if not isinstance(s.iter, ast.Call) or s.iter.keywords:
-            return None
         k, spec = self.loop_spec(s)
         if spec is None or 'nest' not in spec:
+            return None
+        if not isinstance(s.iter, ast.Call) or s.iter.keywords or not (isinstance(s.iter.func, ast.Name) or
+                                                                       (isinstance(s.iter.func, ast.Attribute) and isinstance(s.iter.func.value, ast.Name)
+                                                                        and s.iter.func.value.id == 'itertools')):
+            # not a literal product(...) / combinations(...): the VALUE may still be "all pairs of a range" (e.g. the index
+            # enumeration of a combinations group)
+            v = self.eval_iter(s.iter, env)
+            if isinstance(v, VCombs2) and isinstance(s.target, ast.Tuple) and len(s.target.elts) == 2 \
+                    and all(isinstance(x, ast.Name) for x in s.target.elts) and len(spec['nest']) == 2:
+                self.nest_n = getattr(self, 'nest_n', 0) + 1
+                lo, hi = '__nest_lo{}'.format(self.nest_n), '__nest_hi{}'.format(self.nest_n)
+                env[lo], env[hi] = v.lo, v.hi
+                a, b = s.target.elts
+                inner = ast.For(target=ast.Name(id=b.id, ctx=ast.Store()), iter=ast.parse('range({} + 1, {})'.format(a.id, hi), mode='eval').body,
+                                body=list(s.body), orelse=[], lineno=s.lineno, col_offset=s.col_offset, end_lineno=s.end_lineno, end_col_offset=s.end_col_offset)
+                outer = ast.For(target=ast.Name(id=a.id, ctx=ast.Store()), iter=ast.parse('range({}, {})'.format(lo, hi), mode='eval').body,
+                                body=[inner], orelse=[], lineno=s.lineno, col_offset=s.col_offset, end_lineno=s.end_lineno, end_col_offset=s.end_col_offset)
+                ast.fix_missing_locations(outer)
+                self.synthetic_specs = getattr(self, 'synthetic_specs', {})
+                self.synthetic_specs[id(outer)] = (k, spec['nest'][0])
+                self.synthetic_specs[id(inner)] = (k, spec['nest'][1])
+                self.keep_alive = getattr(self, 'keep_alive', []) + [outer, inner]
+                return outer
             return None
         fn = self.eval(s.iter.func, env)
         imp = self.modinfo['imports']
@@ -3201,6 +3229,7 @@ def sf_mapcall(eng, node, g, n, m, index):
 
 
 SPEC_FUNCS = {
+    'combs2': lambda eng, node, lo, hi: VCombs2(toz(lo), toz(hi)), 'cvar': _wrap(specs.cvar),
     'mapcall': sf_mapcall, 'mrow': _wrap(specs.mrow), 'mcol': _wrap(specs.mcol),
     'evnest': _wrap(specs.evnest), 'dedges': _wrap(specs.dedges),
     'yxdom': _wrap(specs.yxdom),
